@@ -67,6 +67,12 @@ class Enumerate(Oracle):
     def start(self, run, rp):
         self.count = 0
         self.states = 0
+        self.half_way = 0
+        self.faults = False
+        self.fault_budget = 0
+        if self.prop == "C09" and run.plan["run"].get("enum_faults"):
+            from .. import seams
+            self.faults = bool(seams.install_buggify())
         self.triples = set()
         self.cells = sorted({v["cell"] for v in run.spec["vehicles"]} | {r["d"] for r in run.spec["requests"]})
         return ()
@@ -80,6 +86,9 @@ class Enumerate(Oracle):
         out = []
         prop = self.prop
         self.states += 1
+        self.fault_budget = 120  # injected-failure applications per visited state
+        if self.faults:
+            run.probes["half_failed_single_instruction"] = self.half_way
         base = {"C02": c02_check, "C07": c07_check, "C10": c10_state_check, "C17": c17_check}
         # only what an instruction newly breaks is its fault: inconsistencies already present in the visited state are not
         if prop == "C09":
@@ -119,6 +128,10 @@ class Enumerate(Oracle):
                     for vid, w in after.vehicles.items():
                         if vid != ins.vehicle_id and w is not sim.vehicles[vid]:
                             out.append(V("C09", "other_vehicle_touched", k, f"{op['i']} for {ins.vehicle_id} changed vehicle {vid}"))
+                    # the transition fails half-way: inject a failure at every state-update call the accepted instruction
+                    # makes (site x occurrence); the outcome must be all (as without the fault) or nothing
+                    if self.faults and self.fault_budget > 0:
+                        out += self._half_way(sim, env, ins, op, after, k, run)
             elif accepted:
                 for x in base[prop](after, k):
                     if _vkey(x) in before:
@@ -132,6 +145,41 @@ class Enumerate(Oracle):
 
     def nontrivial(self, run):
         return self.count > 0
+
+
+def _half_way_impl(self, sim, env, ins, op, good, k, run):
+    from .. import seams
+    out = []
+    good_c = None
+    for site in seams.SITES:
+        for n in range(3):
+            if self.fault_budget <= 0:
+                return out
+            seams.BUGGIFY.arm({site: {n}})
+            try:
+                res = apply_instructions(sim, env, (ins,))
+            finally:
+                fired = seams.BUGGIFY.disarm()
+            if not fired:
+                break  # this site is not reached (that often) by this transition
+            self.fault_budget -= 1
+            self.half_way += 1
+            run.stats["injected_update_failure[%s]" % site] += 1
+            same, _ = world_unchanged(sim, res)
+            if same:
+                continue
+            if good_c is None:
+                good_c = sim_canon(good, drop_ids=True, with_applied=False)
+            if sim_canon(res, drop_ids=True, with_applied=False) == good_c:
+                continue  # the failing call was outside the transition proper (e.g. a retried update)
+            bad = [x for x in c02_check(res, k) + c08_check(res, k) + c17_check(res, k)]
+            out.append(V("C09", "half_applied", k,
+                         f"{op['i']}{op['a']} for {ins.vehicle_id} with a failure injected at {site}#{n}: the world is neither unchanged nor fully updated"
+                         + (f" ({bad[0]['msg']})" if bad else ""), key=f"C09/half_applied/{op['i']}/{site}"))
+    return out
+
+
+Enumerate._half_way = _half_way_impl
 
 
 class C09Precedence(Oracle):
